@@ -2170,6 +2170,14 @@ class Deb822NoDuplicateFieldsParagraphElement(Deb822ParagraphElement):
             # way
             key = value.field_name
         original_value = self._kvpair_elements.get(key)
+        if original_value is None:
+            # The new field goes after the current last field, which must
+            # therefore end on a newline (it might be the unterminated last
+            # line of the file).
+            for last_field_name in reversed(self._kvpair_order):
+                last_kvpair = self._kvpair_elements[cast('_strI', last_field_name)]
+                last_kvpair.value_element.add_final_newline_if_missing()
+                break
         self._kvpair_elements[key] = value
         self._kvpair_order.append(key)
         if original_value is not None:
@@ -2456,6 +2464,12 @@ class Deb822DuplicateFieldsParagraphElement(Deb822ParagraphElement):
                       " in the first place.  Please index-less key or ({key}, 0) if you" \
                       " want to add the field."
                 raise KeyError(msg.format(key=key, index=index))
+            # The new field goes after the current last field, which must
+            # therefore end on a newline (it might be the unterminated last
+            # line of the file).
+            for last_kvpair in reversed(self._kvpair_order):
+                last_kvpair.value_element.add_final_newline_if_missing()
+                break
             node = self._kvpair_order.append(value)
             if key not in self._kvpair_elements:
                 self._kvpair_elements[key] = [node]
